@@ -533,7 +533,9 @@ class Macro(Element):
         """
         # If there was a '*', unset the counter for this instance
         if arg.index == 0 and arg.name == '*modifier*':
-            if value:
+            # (a macro without a counter of its own, such as \vspace* or
+            # \\*, does not become the current labelable object)
+            if value and self.counter is not None:
                 self.counter = ''
             self.refstepcounter(tex)
 
